@@ -331,7 +331,7 @@ def run_histories(spec, acc, api):
 
 
 FRAGMENTS = ['a', 'b', 'x', '{2}', '{1,2}', '{0,}', '{,3}', '{1}', '*', '+', '?', '.', '(', ')', '(?:', '(?=a)', '[a-c]', '[^a]', '\\d', '\\w+', '\\', '^', '$', '|', '-', ' ', '#', '\n',
-             '(?i)', '\\1', '\\b', '{', '}', ',', '0', '12']
+             '(?i)', '\\1', '\\b', '{', '}', ',', '0', '12', '%', '%41', '%2F', '%e2%82%ac', '25%25', '%zz', '%ff', '+', '&a=', '?q=', '://', '#x']
 
 
 def run_escapes(spec, acc, api):
